@@ -21,9 +21,9 @@ def deep(rng, depth):
     if depth > 0:
         for _ in range(rng.randrange(0, 3)):
             kids.append(deep(rng, depth - 1))
-    e = E(rng.choice(['meta', 'field', 'group', 'x']), *kids, text=rng.choice(SPECIAL + [None]), tail=rng.choice([None, ' t ', '\n', 'tail & more']))
+    e = E(rng.choice(['meta', 'field', 'group', 'x', 'L\u00e4nge', '\u503c']), *kids, text=rng.choice(SPECIAL + [None]), tail=rng.choice([None, ' t ', '\n', 'tail & more']))
     if rng.random() < 0.5:
-        e.set(rng.choice(['kind', 'id', 'lang']), rng.choice(SPECIAL))
+        e.set(rng.choice(['kind', 'id', 'lang', 'gepr\u00fcft']), rng.choice(SPECIAL))
     return e
 
 
